@@ -43,11 +43,15 @@ def ro_case(draw):
         a['off'] = draw(st.sampled_from([0.0, 2.0, -1.5]))
         a['aff'] = detmodel._row(draw, size, 0.4) if draw(st.booleans()) else None
         atoms.append(a)
+    nu2 = draw(st.sampled_from([0, 1, 2, 3]))
     return {'mode': 'ro', 'shape': shape, 'V': list(V), 'nz': nz, 'ny': ny, 'mask': mask, 'y0': y0, 'Y': Y,
             'adapt_order': [list(t) for t in adapt_order], 'idx': idx, 'atoms': atoms,
             'sense': draw(st.sampled_from(['min', 'max'])), 'c': detmodel._row(draw, size), 'c0': draw(st.sampled_from([0.0, 1.0, -2.0])),
             'zval': [draw(st.sampled_from(VALS)) for _ in range(nz)], 'A': [detmodel._row(draw, size) for _ in range(2)],
-            'b': [draw(st.sampled_from(VALS)) for _ in range(2)]}
+            'b': [draw(st.sampled_from(VALS)) for _ in range(2)],
+            # a second random array u declared after z: coefficients of y on u (rule rows that depend on u), realisation of u
+            'nu': nu2, 'Yu': [[draw(st.sampled_from(VALS)) if draw(st.booleans()) else 0.0 for _ in range(nu2)] for _ in range(ny)],
+            'uval': [draw(st.sampled_from(VALS)) for _ in range(nu2)]}
 
 
 @st.composite
@@ -155,7 +159,8 @@ class C12(Prop):
     rule = ('(ro) a variable array of rank 0-2 pinned to distinct values, an LDR whose coefficients are pinned by robust equalities on a '
             'full-dimensional set with a random dependency mask declared in a random order of adapt() calls; queries: x.get(), '
             'x[index].get() for int/negative/slice/column/list indices, x(), affine expressions, y.get(), y.get(z) (NaN exactly off '
-            'the mask), y(), y(z.assign(v)), bi-affine expressions with and without assigned realisations, every atom that supports '
+            'the mask), y(), y(z.assign(v)), a second random array u declared after z (y.get(u), y(u.assign), both assigned in either order), '
+            'bi-affine expressions with and without assigned realisations, every atom that supports '
             'evaluation with multipliers +-, offsets and affine addends, model.get() for min and max. (dro) 2-5 scenarios with '
             'int/str/reversed labels, singleton supports, an event-wise decision whose per-event value is known a priori (maximum of '
             'an affine function of the scenario data over the event), partition from a random adapt() sequence, optional affinely '
@@ -187,16 +192,27 @@ class C12(Prop):
         m = ro.Model()
         x = m.dvar(shape)
         z = m.rvar(nz)
+        nu = case.get('nu', 0)
+        u = m.rvar(nu) if nu else None
         y = m.ldr(ny) if ny else None
         mask = np.array(case['mask']).reshape(ny, nz).astype(bool)
+        Yu = np.array(case.get('Yu') or np.zeros((ny, nu)), dtype=float).reshape(ny, nu)
+        umask = Yu != 0
         for (k, j) in case['adapt_order']:
             y[k].adapt(z[j])
+        for k in range(ny):
+            for j in range(nu):
+                if umask[k, j]:
+                    y[k].adapt(u[j])
         m.st(x == V)
-        zset = (abs(z) <= 1,)
+        zset = (abs(z) <= 1,) + ((abs(u) <= 1,) if nu else ())
         Y = np.array(case['Y'], dtype=float).reshape(ny, nz)
         y0 = np.array(case['y0'], dtype=float)
         for k in range(ny):
-            m.st((y[k] == y0[k] + Y[k] @ z).forall(zset))
+            rhs = y0[k] + Y[k] @ z
+            if nu and umask[k].any():
+                rhs = rhs + Yu[k] @ u
+            m.st((y[k] == rhs).forall(zset))
         c = np.array(case['c'])
         xf = x.reshape((size,)) if shape != (size,) else x
         obj = c @ xf + case['c0']
@@ -252,6 +268,26 @@ class C12(Prop):
                 wv = 2 * (y0[0] + Y[0] @ zv) + Vf[0] * zv.sum() - 1
                 if not close(e(z.assign(zv)), wv):
                     return fail('biaffine_with_ldr(z.assign)', e(z.assign(zv)), wv)
+        if nu:
+            uv = np.array(case['uval'], dtype=float)
+            labels.append('second_rvar')
+            if ny and umask.any():
+                Yuw = np.where(umask, Yu, np.nan)
+                if not close(y.get(u), Yuw):
+                    return fail('y.get(u)', y.get(u), Yuw)
+                if not close(y(u.assign(uv)), y0 + Yu @ uv):
+                    return fail('y(u.assign)', y(u.assign(uv)), y0 + Yu @ uv)
+                if not close(y(z.assign(zv), u.assign(uv)), y0 + Y @ zv + Yu @ uv):
+                    return fail('y(z.assign, u.assign)', y(z.assign(zv), u.assign(uv)), y0 + Y @ zv + Yu @ uv)
+                if not close(y(u.assign(uv), z.assign(zv)), y0 + Y @ zv + Yu @ uv):
+                    return fail('y(u.assign, z.assign)', y(u.assign(uv), z.assign(zv)), y0 + Y @ zv + Yu @ uv)
+            ku = min(size, nu)
+            eu = (xf[:ku] * u[:ku]).sum() + 3 * u[nu - 1] + z[0]
+            wu = float(Vf[:ku] @ uv[:ku] + 3 * uv[nu - 1])
+            if not close(eu(u.assign(uv)), wu):
+                return fail('biaffine(u.assign) with unspecified z', eu(u.assign(uv)), wu)
+            if not close(eu(u.assign(uv), z.assign(zv)), wu + zv[0]):
+                return fail('biaffine(u.assign, z.assign)', eu(u.assign(uv), z.assign(zv)), wu + zv[0])
         k = min(size, nz)
         e = (xf[:k] * z[:k]).sum() + c @ xf + 2 * z[0]
         wv = float(Vf[:k] @ zv[:k] + c @ Vf + 2 * zv[0])
